@@ -563,6 +563,20 @@ var c19BadDocs = []struct {
 	{"target-refuses-time", []byte(`{"t":"yesterday"}`)},
 	{"target-refuses-ip", []byte(`{"ip":"999.1.1.1"}`)},
 	{"target-refuses-text", []byte(`{"u":"lower"}`)},
+	// the transport ends cleanly after a non-final fragment whose bytes are a valid document on their own
+	{"cut-after-fragment-number", []byte(`12345`)},
+	{"cut-after-fragment-array", []byte(`[1]  ,2]`)},
+}
+
+// c19CutAt: for the cut-* kinds, the number of bytes in the only fragment that arrives.
+func c19CutAt(kind string) int {
+	switch kind {
+	case "cut-after-fragment-number":
+		return 2 // "12"
+	case "cut-after-fragment-array":
+		return 3 // "[1]"
+	}
+	return -1
 }
 
 func c19BadCases() []c19BadCase {
@@ -574,6 +588,9 @@ func c19BadCases() []c19BadCase {
 		}
 		if strings.HasPrefix(d.Kind, "target-refuses") {
 			targets = []string{"rich"}
+		}
+		if strings.HasPrefix(d.Kind, "cut-") {
+			targets = []string{"interface", "raw"}
 		}
 		for _, tg := range targets {
 			for i := 0; i < 32; i++ {
@@ -607,8 +624,9 @@ func c19BadOne(c *fw.Ctx, cs c19BadCase) {
 		}
 		return c19NewTarget(cs.Target)
 	}
+	cutAt := c19CutAt(cs.Kind)
 	// the trusted base must agree that the document is not valid for the target
-	if json.Unmarshal(doc, newTarget()) == nil {
+	if cutAt < 0 && json.Unmarshal(doc, newTarget()) == nil {
 		c.EngineError(fmt.Sprintf("%s: encoding/json accepts the document %q for this target", desc, doc))
 		return
 	}
@@ -637,7 +655,12 @@ func c19BadOne(c *fw.Ctx, cs c19BadCase) {
 	if cs.Binary {
 		op = frame.OpBinary
 	}
-	in = append(in, enc(op, doc)...)
+	if cutAt >= 0 {
+		// only a first, non-final fragment arrives; then the transport ends (uncompressed)
+		in = append(in, frame.Frame{Fin: false, Opcode: op, Masked: masked, Key: [4]byte{3, 1, 4, 1}, Payload: doc[:cutAt]}.Encode(nil)...)
+	} else {
+		in = append(in, enc(op, doc)...)
+	}
 	ctx, cancel := mxGuard(mxGuardTime)
 	defer cancel()
 	t := mxNewTransport(in)
@@ -668,6 +691,10 @@ func c19BadOne(c *fw.Ctx, cs c19BadCase) {
 		tj, _ := json.Marshal(target)
 		c.Violate("C19/invalid-json-accepted/"+cs.Kind, fmt.Sprintf("%s: wsjson.Read returned nil for the document %q (target now %s)", desc, doc, c19Abbrev(tj)), cs)
 		return
+	}
+	if cutAt >= 0 {
+		c.OutcomeStr("cut " + desc)
+		return // the message never arrived completely: an error is all that is required
 	}
 	if !mxHasCloseStatus(t.Log(), 1007) {
 		c.Violate("C19/invalid-json-no-1007/"+cs.Kind, fmt.Sprintf("%s: wsjson.Read failed (%v) but no Close frame with status 1007 was written; Close frames written: %s", desc, err, c08Closes(t.Log())), cs)
